@@ -1,6 +1,9 @@
 """C08 - UTF-8/16/32 conversions are lossless on valid text and safe on any bytes (spec/Utf.tla)."""
+import concurrent.futures as cf
+import json
 import os
 import re
+import shutil
 import subprocess
 import vlib
 
@@ -27,7 +30,13 @@ _ROW = re.compile(r"\[\d+,\[")      # start of a table row [c,[utf8...],[utf16..
 
 
 def _count_filter(counter):
+    seen = set()
+
     def f(line):
+        h = hash(line)
+        if h in seen:
+            return None
+        seen.add(h)
         if line.startswith('{"k":"blk"'):
             counter["scalars"] += len(_ROW.findall(line))
             counter["blk"] += 1
@@ -35,6 +44,39 @@ def _count_filter(counter):
             counter["seq"] += 1
         return line
     return f
+
+
+def _record_jobs(ctx, exe, jobs, timeout=1800):
+    """Like ctx.record, for a list of (label, extra_args) recorder invocations that run side by side (the exhaustive
+    enumerations are split by first byte).  A dying recorder is a violation with a replay descriptor."""
+    def one(job):
+        label, args = job
+        slabel = re.sub(r"[^A-Za-z0-9_.-]", "_", label)
+        seed = vlib.derive_seed(ctx.seed, label, 0)
+        out = os.path.join(ctx.tmp, slabel + ".ndjson")
+        cmd = [exe, "--seed", str(seed), "--events", "0", "--out", out] + list(args)
+        p = subprocess.run(["timeout", "-k", "5", str(timeout)] + cmd, env=vlib.run_env(), stdout=subprocess.PIPE,
+                           stderr=subprocess.PIPE, text=True, errors="replace")
+        return label, slabel, seed, out, args, p
+
+    files, nev = [], 0
+    with cf.ThreadPoolExecutor(vlib.NCPU) as ex:
+        for label, slabel, seed, out, args, p in ex.map(one, jobs):
+            if p.returncode != 0:
+                path = os.path.join(ctx.replay_dir, "rec-%s-%d.json" % (slabel, seed))
+                with open(path, "w") as f:
+                    json.dump({"recorder": "c08_record", "seed": seed, "events": 0, "args": list(args), "exit": p.returncode, "avoid": []}, f)
+                    f.write("\n")
+                ctx.violation("%s: recorder died with exit %s\n%s" % (label, p.returncode, (p.stderr or "")[-3500:]), path=path)
+                continue
+            files.append(out)
+            with open(out, "rb") as fh:
+                nev += sum(1 for _ in fh)
+    ctx.evaluations += nev
+    ctx._rec_exec = getattr(ctx, "_rec_exec", 0) + len(files)
+    ctx.engines.append("V/Utf-exhaustive: %d recorder runs, %d events" % (len(files), nev))
+    vlib.log(ctx.engines[-1])
+    return files
 
 
 def run(ctx):
@@ -54,31 +96,33 @@ def run(ctx):
     os.unlink(cases)
 
     # R2: every byte string over the boundary alphabet
-    cases = os.path.join(ctx.tmp, "c08-bytes.cases")
-    ctx.model("MC_UtfBytes", "MC_UtfBytes_" + tier, emit_to=cases, timeout=ctx.pick(300, 1800), xmx="8g")
-    ctx.replay(rep, cases, label="R/UtfBytes", timeout=ctx.pick(600, 2400))
-    os.unlink(cases)
+    # (second run: the alphabet extended by the bytes that delimit the second-byte ranges of table 3-7: 8F 90 9F A0 C1 E1 ED EE F1 F5)
+    for cfg, label in (("MC_UtfBytes_" + tier, "R/UtfBytes"), ("MC_UtfBytes_ext_" + tier, "R/UtfBytes-ext")):
+        cases = os.path.join(ctx.tmp, "c08-bytes.cases")
+        ctx.model("MC_UtfBytes", cfg, emit_to=cases, timeout=ctx.pick(300, 1800), xmx="8g")
+        ctx.replay(rep, cases, label=label, timeout=ctx.pick(600, 2400))
+        os.unlink(cases)
     # V: recorded executions validated by TLC against the same operators
     rec = vlib.build_harness(lib, "c08_record", ["c08_record.cpp"])
     files = []
     files += ctx.record(rec, ctx.pick(4, 16), ctx.pick(1200, 6000), "V/Utf-text", extra_args=["--mode", "0"])
     files += ctx.record(rec, ctx.pick(4, 16), ctx.pick(2500, 12000), "V/Utf-bytes", extra_args=["--mode", "1"])
     # every byte string of length 0, 1, 2: one fully logged event each
+    jobs = []
     for ln, shards in ((0, 1), (1, 1), (2, 8)):
         for k in range(shards):
-            files += ctx.record(rec, 1, 0, "V/Utf-all-len%d-%d" % (ln, k),
-                                extra_args=["--mode", "2", "--len", str(ln), "--full", "1", "--shard", "%d/%d" % (k, shards)])
+            jobs.append(("V/Utf-all-len%d-%d" % (ln, k), ["--mode", "2", "--len", str(ln), "--full", "1", "--shard", "%d/%d" % (k, shards)]))
     # every byte string of length 3 (thorough; quick: first byte from the boundary alphabet), bounds in aggregate
     firsts = [127, 128, 191, 192, 194, 223, 224, 239, 240, 244, 247, 248, 255, 65, 97] if ctx.quick else list(range(1, 256))
     per = 1 if ctx.quick else 8
     groups = [firsts[i:i + per] for i in range(0, len(firsts), per)]
     nstr = 0
     for g in groups:
-        files += ctx.record(rec, 1, 0, "V/Utf-all-len3-%d" % g[0], timeout=1800,
-                            extra_args=["--mode", "2", "--len", "3", "--first", ",".join(map(str, g))])
+        jobs.append(("V/Utf-all-len3-%d" % g[0], ["--mode", "2", "--len", "3", "--first", ",".join(map(str, g))]))
         nstr += 255 * 255 * len(g)
+    files += _record_jobs(ctx, rec, jobs)
     ctx.extra["byte_strings_len3_run_flush_in_3_placements"] = nstr
-    ctx.validate_traces("Trace_Utf", "Trace_Utf", files, label="V/Utf", timeout=ctx.pick(600, 2400))
+    ctx.validate_traces("Trace_Utf", "Trace_Utf", files, label="V/Utf", timeout=ctx.pick(600, 2400), xss="512m")
     if cnt["scalars"] != NSCALARS:
         raise vlib.HarnessError("scalar table incomplete: %d rows instead of %d" % (cnt["scalars"], NSCALARS))
     ctx.exhaustive = True
@@ -94,10 +138,41 @@ def run(ctx):
                 "(distinct C strings); non-trivial = non-empty input; V: one event per recorded string")
 
 
+def _replay_recorded(path, lib, hname, hsrcs, trace_spec, cfg):
+    """vlib.replay_recorded with a larger TLC stack (the operators recurse over strings of > 1000 bytes): a stored
+    (rejected) trace is validated again; a recorder-crash descriptor {seed, events, args} is re-recorded first."""
+    tmp = os.path.join(vlib.BUILD, "tmp", "replay-%d" % os.getpid())
+    os.makedirs(tmp, exist_ok=True)
+    try:
+        trace = path
+        if not path.endswith(".ndjson"):
+            info = json.load(open(path))
+            exe = vlib.build_harness(lib, hname, hsrcs)
+            trace = os.path.join(tmp, "t.ndjson")
+            cmd = [exe, "--seed", str(info["seed"]), "--events", str(info["events"]), "--out", trace] + list(info.get("args", []))
+            if info.get("avoid"):
+                cmd += ["--avoid", ",".join(info["avoid"])]
+            p = subprocess.run(["timeout", "1800"] + cmd, env=vlib.run_env())
+            if p.returncode != 0:
+                print("recorder failed again with exit %d (seed %s): violation reproduced" % (p.returncode, info["seed"]))
+                return 1
+        r = vlib.tlc(trace_spec, cfg, workers=1, timeout=1800, env={"TRACE": trace}, xss="512m")
+        if r.rc == 0:
+            print("trace accepted by %s" % trace_spec)
+            return 0
+        if r.violated() is None:
+            print(r.tail(40))
+            return 2
+        print("trace rejected by %s near event %d: %s" % (trace_spec, r.depth, vlib._nth_line(trace, r.depth)))
+        return 1
+    finally:
+        shutil.rmtree(tmp, ignore_errors=True)
+
+
 def replay(path):
     lib = vlib.build_lib("asan")
     if os.path.basename(path).startswith("rec-") or path.endswith(".ndjson"):
-        return vlib.replay_recorded(path, lib, "c08_record", ["c08_record.cpp"], "Trace_Utf", "Trace_Utf")
+        return _replay_recorded(path, lib, "c08_record", ["c08_record.cpp"], "Trace_Utf", "Trace_Utf")
     rep = vlib.build_harness(lib, "c08_replay", ["c08_replay.cpp"])
     r = subprocess.run([rep, "--single", path], env=vlib.run_env())
     return 1 if r.returncode == 1 else (0 if r.returncode == 0 else 2)
